@@ -168,6 +168,37 @@ def trackClose (s : SState) (key : Bytes) (backend : Addr) : SState :=
 /-- `ActiveConnections()` -/
 def activeConnections (s : SState) : Nat := s.active.length
 
+
+/-! ## one `lite.Forward` call and the counters
+
+`Forward`: findRoute → tryBackends (dial) → `emptyReadBuff` (flush of the client's buffered bytes to the backend) →
+`TrackConnection` + `defer decrement` → `pipe` (until either side closes) → return (deferred release).
+A call can end at four points; only the last one ever touches the counters. -/
+
+inductive FwdEnd where
+  | noRoute                       -- findRoute failed: nothing dialled
+  | allDialsFailed                -- tryBackends exhausted the list
+  | flushFailed (backend : Addr)  -- dial succeeded, ReadBuffered / the write of the buffered bytes failed
+  | piped (backend : Addr)        -- forwarded; the call returns when the connection closes
+  deriving DecidableEq, Repr
+
+/-- where the code takes the connection into the counters: the repaired/current code after the flush, together with
+    the deferred release; the defective class tracks before the flush but defers the release only after it -/
+structure FwdVariant where
+  trackBeforeFlush : Bool := false
+
+/-- state while the call is in progress (for `piped`: while the connection is open) -/
+def forwardDuring (v : FwdVariant) (s : SState) (key : Addr → Bytes) : FwdEnd → SState
+  | .piped b => trackOpen s (key b) b
+  | .flushFailed b => if v.trackBeforeFlush then trackOpen s (key b) b else s
+  | _ => s
+
+/-- state after the call has returned -/
+def forwardAfter (v : FwdVariant) (s : SState) (key : Addr → Bytes) : FwdEnd → SState
+  | .piped b => trackClose (trackOpen s (key b) b) (key b) b
+  | .flushFailed b => if v.trackBeforeFlush then trackOpen s (key b) b else s   -- no deferred release registered yet
+  | _ => s
+
 /-! ## concurrency: all interleavings of the counters' atomic sections -/
 
 structure Conn where
